@@ -11,7 +11,7 @@ Terms: `atom` or `tag(term,...)`; atoms never contain `(`, `)`, `,` or blanks.
   values  none true false i:<int> f:<hex> s:<hex> d:<hex> u:<hex> q:<hex> list(v,..) set(v,..)
           objv(Name,f(<hex>,v)..,c(<hex>,json)..,x(<hex>,json)..)
 Lines:
-  nf <dur|unit|qty> <hex in> <hex out | !>     graph of the library normalisers
+  nf <dur|unit|qty> <hex in> <hex out | ! | !!>   graph of the library normalisers (! refused, !! raises)
   cls <Name> <allow|ignore|forbid> fld(<hex>,ty,req|opt,<json>|-).. const(<hex>,json)..   effective schema
   def <Name> <Parent|-> <extra|-> fld(<hex>,ty,<json>|-).. const(..).. ovr(<hex>).. mand(<hex>).. [constovr]
   build                                         class construction rules for the `def` table
@@ -198,26 +198,35 @@ structure ESchema where
   fields : List (Str × Ty × Bool × Option Json)
   consts : List (Str × Json)
 
+/-- outcome of a library parser on one string -/
+inductive NF
+  | ok (n : Str)
+  | reject
+  | crash
+
 structure St where
-  nfDur : List (Str × Option Str) := []
-  nfUnit : List (Str × Option Str) := []
-  nfQty : List (Str × Option Str) := []
+  nfDur : List (Str × NF) := []
+  nfUnit : List (Str × NF) := []
+  nfQty : List (Str × NF) := []
   eff : List ESchema := []
   defs : Table := []
 
-def lookupNF (k : Str) : List (Str × Option Str) → Option (Option Str)
+def lookupNF (k : Str) : List (Str × NF) → Option NF
   | [] => none
   | (k', v) :: r => if k == k' then some v else lookupNF k r
 
-def St.tbl (s : St) : Opq → List (Str × Option Str)
+def St.tbl (s : St) : Opq → List (Str × NF)
   | .dur => s.nfDur
   | .unit => s.nfUnit
   | .qty => s.nfQty
 
 def St.env (s : St) : Env where
   norm := fun k x => match lookupNF x (s.tbl k) with
-    | some r => r
-    | none => none
+    | some (.ok n) => some n
+    | _ => none
+  crash := fun k x => match lookupNF x (s.tbl k) with
+    | some .crash => true
+    | _ => false
   normFloat := fun t => if t == "inf".toList || t == "-inf".toList || t == "nan".toList then none else some t
 
 partial def jsonStrings : Json → List Str
@@ -327,7 +336,7 @@ def withTyJson (s : St) (t j : String) (k : Ty → Json → String) : St × Stri
 
 def step (s : St) : List String → St × String
   | ["nf", kind, i, o] =>
-    match unhexL i, (if o == "!" then some none else (unhexL o).map some) with
+    match unhexL i, (if o == "!" then some NF.reject else if o == "!!" then some NF.crash else (unhexL o).map NF.ok) with
     | some x, some r =>
       match kind with
       | "dur" => ({ s with nfDur := (x, r) :: s.nfDur }, "ok")
